@@ -226,6 +226,10 @@ def manager_agreement(ctx, fcst, obs, ts, rd, pd, ds, desc):
             for name, meth in (("POD", "probability_of_detection"), ("POFD", "probability_of_false_detection")):
                 exp = getattr(b, meth)()
                 got = ds[name].isel(threshold=i, drop=True)
+                if set(exp.dims) != set(got.dims):
+                    ctx.violation(f"{name} keeps other dimensions than the contingency manager for the same request", dict(desc, threshold=t),
+                                  list(exp.dims), list(got.dims))
+                    return
                 if exp.dims:
                     exp = exp.sel({d: got[d] for d in got.dims}).transpose(*got.dims)
                 if not np.allclose(np.asarray(got.values, float), np.asarray(exp.values, float), rtol=1e-12, atol=0, equal_nan=True):
